@@ -70,7 +70,10 @@ PRELUDE = (' '.join('assign {} {}'.format(k, lit(v)) for k, v in VARS.items())
            + ' ' + ' '.join('{} {}'.format(k, lit(v)) for k, v in REGS.items())
            + ' define sq with x begin return { x * x } end'
            + ' define avg with p q begin return { ( p + q ) / 2 } end'
-           + ' define idf with v begin return v end ')
+           + ' define idf with v begin return v end'
+           # parameters deliberately named like the caller's variables
+           + ' define second with a b begin return b end'
+           + ' define third with n c d begin return d end ')
 USER = {'sq': lambda x: x * x, 'avg': lambda p, q: (p + q) / 2}
 
 
@@ -295,7 +298,8 @@ def braces(rng, tree, redundant):
 
 def expected_prints(position, value):
     truth = bool(value)
-    if position in ('print', 'assign', 'register', 'argument', 'bound'):
+    if position in ('print', 'assign', 'register', 'argument', 'bound',
+                    'argument2', 'argument3'):
         return [value]
     if position == 'if':
         return [1 if truth else 0]
@@ -315,6 +319,10 @@ def script_for(position, text):
         return 'hue ' + text + ' print hue'
     if position == 'argument':
         return 'print [ idf ' + text + ' ]'
+    if position == 'argument2':
+        return 'print [ second 99 ' + text + ' ]'
+    if position == 'argument3':
+        return 'print { 1 * [ third 77 { 88 } ' + text + ' ] }'
     if position == 'if':
         return 'if ' + text + ' print 1 else print 0'
     if position == 'while':
@@ -351,9 +359,10 @@ def part_expr(ctx):
         pairs = set()
         op_pairs(tree, pairs)
         seen_pairs |= pairs
-        positions = ['print', 'assign', 'argument', 'if', 'while']
+        positions = ['print', 'assign', 'argument', 'argument2', 'if', 'while']
         if not isinstance(value, bool):
             positions.append('register')
+            positions.append('argument3')     # (a call inside arithmetic)
             if isinstance(value, int) and 0 <= value <= 6:
                 positions.append('count')
             if isinstance(value, int) and abs(value) < 10 ** 6:
